@@ -40,7 +40,7 @@ def describe(s):
 
 
 FAMILY = GFamily("csrbank/CsrBankGraph", TRACE, FACTORY, clause_map={k: k for k in INVS}, describe=describe,
-                 spec_name=None)
+                 spec_name=None, fmt="hash")
 
 
 # ------------------------------------------------------------------------------------------- G-mode
@@ -67,7 +67,7 @@ def g_mode(report, tier):
 
 SRAM_INVS = ["WindowReadsLastWrite", "WindowZeroWhenUnselected", "WindowPageRegister"]
 SRAM_FAMILY = GFamily("csrbank/CsrSramGraph", "csrbank/CsrSramTrace", "harness.families.csrbank:make_sram",
-                      clause_map={k: k for k in SRAM_INVS}, spec_name=None,
+                      clause_map={k: k for k in SRAM_INVS}, spec_name=None, fmt="hash",
                       describe=lambda s: "csr_bus.SRAM(w=%d, mem %dx%d, paging=%d%s)" % (
                           s["w"], s["depth"], s["mw"], s["paging"], ", read_only" if s.get("ro") else ""))
 
